@@ -1,6 +1,8 @@
 package sim
 
 import (
+	"encoding/base64"
+	"encoding/hex"
 	"fmt"
 	"math/big"
 	"reflect"
@@ -182,6 +184,62 @@ func GenArg(c *pbt.C, p *Pools, t abi.Type, label string) reflect.Value {
 	panic(fmt.Sprintf("abigen: unsupported type %v", t))
 }
 
+// genArgNamed: string parameters that carry an encoding (base64 keys and signatures, hex addresses of other
+// networks) get well-formed encodings of hostile content part of the time; everything else is GenArg.
+func genArgNamed(c *pbt.C, p *Pools, t abi.Type, name, label string) reflect.Value {
+	if t.T != abi.StringTy || c.Weighted(label+".enc", 3, 2) == 0 {
+		return GenArg(c, p, t, label)
+	}
+	lname := strings.ToLower(name)
+	kind := c.Pick(label+".enc.kind", 3) // base64 key, base64 signature, hex
+	switch {
+	case strings.Contains(lname, "pubkey"):
+		kind = c.Weighted(label+".enc.bias", 5, 1, 1)
+	case strings.Contains(lname, "signature"):
+		kind = []int{1, 1, 1, 0, 2}[c.Pick(label+".enc.bias", 5)]
+	case strings.Contains(lname, "address"):
+		kind = []int{2, 2, 2, 0, 1}[c.Pick(label+".enc.bias", 5)]
+	}
+	body := func(n int) []byte {
+		b := make([]byte, n)
+		switch c.Weighted(label+".enc.fill", 3, 1, 1) {
+		case 0:
+			copy(b, c.Bytes(label+".enc.raw", n, n))
+		case 1:
+			for i := range b {
+				b[i] = 0xff
+			}
+		}
+		return b
+	}
+	switch kind {
+	case 0:
+		n := []int{33, 33, 33, 32, 34, 65, 0}[c.Pick(label+".enc.klen", 7)]
+		b := body(n)
+		if n > 0 {
+			b[0] = []byte{2, 3, 4, 0, b[0]}[c.Pick(label+".enc.first", 5)]
+		}
+		return reflect.ValueOf(base64.StdEncoding.EncodeToString(b))
+	case 1:
+		n := []int{65, 65, 65, 64, 66, 0}[c.Pick(label+".enc.slen", 6)]
+		b := body(n)
+		if n == 65 {
+			b[64] = []byte{0, 1, 27, 28, 4, b[64]}[c.Pick(label+".enc.v", 6)]
+		}
+		return reflect.ValueOf(base64.StdEncoding.EncodeToString(b))
+	default:
+		n := []int{20, 20, 20, 19, 21, 32, 0}[c.Pick(label+".enc.hlen", 7)]
+		hx := hex.EncodeToString(body(n))
+		switch c.Pick(label+".enc.hform", 3) {
+		case 0:
+			hx = "0x" + hx
+		case 1:
+			hx = "0X" + strings.ToUpper(hx)
+		}
+		return reflect.ValueOf(hx)
+	}
+}
+
 // GenCallData draws call data for a method of contract addr.
 // layer: 0 typed boundary values (canonical packing), 1 non-canonical re-encoding of a packing,
 // 2 raw bytes after a valid selector.
@@ -191,7 +249,7 @@ func GenCallData(c *pbt.C, p *Pools, addr types.Address, method string, layer in
 	args := make([]interface{}, len(m.Inputs))
 	descr := make([]string, len(m.Inputs))
 	for i, in := range m.Inputs {
-		v := GenArg(c, p, in.Type, "arg"+fmt.Sprint(i)).Interface()
+		v := genArgNamed(c, p, in.Type, in.Name, "arg"+fmt.Sprint(i)).Interface()
 		args[i] = v
 		descr[i] = shortVal(v)
 	}
